@@ -45,7 +45,7 @@ RULE = ('per configuration (key type, key universe, source in fresh/literal/chai
         'bound on chain or was written before')
 BOUND = {'quick': 'key type int: |K|=2 and |K|=3, on-chain values {absent,2}, literal values {absent,0,1}, all 4 sources, '
                   'closure of the state graph (reached at depth <= 2|K|+1; caps: depth 8, 5*4^|K| states per configuration)',
-         'thorough': '12 key types (int, string, pair, bytes, address, nat, timestamp, key_hash, option, or, 3-comb, chain_id) with '
+         'thorough': '12 key types (int, string, pair, bytes, address, nat, mutez, key_hash, option, or, 3-comb, chain_id) with '
                      '|K|=3, on-chain values {absent,0,2}; int keys with |K|=4, on-chain values {absent,2}; literal values '
                      '{absent,0,1}; all 4 sources; closure (caps: depth 10, 5*4^|K| states per configuration)'}
 ASSUMPTIONS = ['the canonical state (items, removed_keys as a set, ptr) determines the future behaviour of a BigMapType whose '
@@ -68,7 +68,7 @@ KEYTYPES = {
     'bytes': (('bytes',), [b'', b'\x00', b'\xff']),
     'address': (('address',), [('tz1', T.H0, ''), ('KT1', T.H0, ''), ('KT1', T.H0, 'a')]),
     'nat': (('nat',), [0, 1, 128]),
-    'timestamp': (('timestamp',), [0, -1, 1]),
+    'mutez': (('mutez',), [0, 1, 2 ** 62]),
     'key_hash': (('key_hash',), [('tz1', T.H0), ('tz2', T.H0), ('tz1', T.HF)]),
     'option': (('option', ('int',)), [None, ('Some', 0), ('Some', -1)]),
     'or': (('or', ('int',), ('string',)), [('L', 0), ('R', ''), ('R', 'a')]),
